@@ -170,6 +170,13 @@ class ConstEnv:
                     return {'tuple': tuple, 'list': list, 'set': set, 'frozenset': frozenset, 'sorted': sorted, 'dict': dict, 'len': len}[node.func.id](v)
                 except Exception:
                     pass
+        if isinstance(node, ast.Call) and isinstance(node.func, ast.Name) and node.func.id == 'range' and 1 <= len(node.args) <= 3 and not node.keywords:
+            av = [ev(a) for a in node.args]
+            if all(isinstance(a, int) and not isinstance(a, bool) and abs(a) <= 1 << 20 for a in av):
+                try:
+                    return list(range(*av))
+                except ValueError:
+                    pass
         if isinstance(node, ast.Call) and isinstance(node.func, ast.Attribute) and node.func.attr in ('keys', 'values', 'items') and not node.args and not node.keywords:
             base = ev(node.func.value)
             if isinstance(base, dict):
